@@ -215,7 +215,8 @@ Mutants(c) ==
   \* the same cycle with entity members, and an expression that has to look through the cyclic select (attribute  \*
   \* access and group qualification on a value of that type), entity member before or after the select member
   \cup {[M("select_cycle", 0, "", "SELECT_LOOP") EXCEPT !.pos = p] : p \in {"entity_first_dot", "select_first_dot", "entity_first_group", "three_dot"}}
-  \cup {[M("undef_ref", 1, "nosuch_a", "UNDEFINED") EXCEPT !.pos = p] : p \in UndefRefPos}
+  \* (an attribute named after a group qualifier is looked up in that entity: the diagnostic is the one for unknown attributes)
+  \cup {[M("undef_ref", 1, "nosuch_a", IF p = "derive_group" THEN "UNKNOWN_ATTR_IN_ENTITY" ELSE "UNDEFINED") EXCEPT !.pos = p] : p \in UndefRefPos}
 
 (* lexical mutants (C20): the offending character / identifier / count must be the one quoted *)
 (* the same faults with the offending name made long (stretch: that many characters are appended to it wherever it  *)
@@ -229,7 +230,7 @@ LexMutants ==
    [M("argcount", 1, "f1x", "WRONG_ARG_COUNT") EXCEPT !.pos = "noargs"]}
   \* the quoted value is the one of the input, whatever it is: each character that is no lexical element, a digit that
   \* is not hexadecimal at the first / a middle / the last place, digit counts below and above one and two groups of eight
-  \cup {[M("lex_unexpected_char", 1, ch, "UNEXPECTED_CHARACTER") EXCEPT !.pos = ch] : ch \in {"~", "@", "^", "{", "}", "$", "&"}}
+  \cup {[M("lex_unexpected_char", 1, ch, "UNEXPECTED_CHARACTER") EXCEPT !.pos = ch] : ch \in {"~", "@", "^", "$", "&"}}
   \cup {[M("lex_bad_hex_digit", 1, d[1], "ENCODED_STRING_BAD_DIGIT") EXCEPT !.pos = d[2]] : d \in {<<"G", "last">>, <<"x", "first">>, <<"Z", "middle">>, <<"g", "second_group">>}}
   \cup {[M("lex_bad_hex_count", 1, k, "ENCODED_STRING_BAD_COUNT") EXCEPT !.pos = k] : k \in {"6", "9", "14", "23", "1"}}
 
